@@ -220,6 +220,15 @@ def run(ctx):
                 if isinstance(sols, list) and not stmt_solutions(ctx, dbname, d, sols):
                     break
             ctx.sample({"db": dbname, "imbalance": layers.dict_pairs(vecs[0]), "completions": real[0]})
+        # the imputer itself, both databases interleaved in one process; appended compounds must belong to the database in use
+        ivecs = [v for v in gen_vectors(ctx, "rulesManager", 120 if quick else 1500) if sum(abs(x) for x in v.values()) <= 12]
+        for dbname, d, toks in layers.corr_impute_two_databases(ctx, ivecs):
+            if toks:
+                db_smiles = {e["smiles"] for e in layers.load_db(dbname)}
+                if any(t not in db_smiles for t in toks):
+                    ctx.violation("completion-uses-compound-outside-database", {"db": dbname, "imbalance": d, "added": toks},
+                                  "not in %s" % dbname, "synrbl/SynRuleImputer/synthetic_rule_imputer.py:single_impute")
+                    break
         entries = gen_entries(ctx, 1500 if quick else 20000)
         t = ctx.driver([{"op": "tables"}])[0]
         from gen_tables import main as _g  # noqa: F401  (ban source is read from the generated table info)
